@@ -22,6 +22,38 @@ def mentioned_in_other_bounds(params, i):
     return any(mentions(p[2]) for j, p in enumerate(params) if j != i)
 
 
+def _mentions(t, name, depth=0):
+    """does the live type (attribute reads only) mention a type variable called `name`?"""
+    from src.ir import types as tp
+    if t is None or depth > 12:
+        return False
+    if isinstance(t, tp.TypeParameter):
+        return t.name == name or _mentions(t.bound, name, depth + 1)
+    if isinstance(t, tp.WildCardType):
+        return _mentions(t.bound, name, depth + 1)
+    if isinstance(t, tp.ParameterizedType):
+        return any(_mentions(a, name, depth + 1) for a in t.type_args)
+    return False
+
+
+def ctor_param_names(t, tb, depth=0):
+    """names of the declared type parameters of every generic class mentioned in snapshot t"""
+    out = set()
+    if t is None or depth > 8:
+        return out
+    if t[0] == 'P':
+        ci = tb.classes.get(t[1])
+        if ci is not None:
+            out |= {prm[0] for prm in ci.params}
+        for a in t[2]:
+            out |= ctor_param_names(a, tb, depth + 1)
+    elif t[0] == 'W':
+        out |= ctor_param_names(t[2], tb, depth + 1)
+    elif t[0] == 'V':
+        out |= ctor_param_names(t[3], tb, depth + 1)
+    return out
+
+
 class C08(MonitorCheck):
     ID = 'C08'
     MON = ('C08',)
@@ -40,7 +72,7 @@ class C08(MonitorCheck):
                    'variance choices']
     PROBES = ('constructor_calls', 'function_calls', 'bounded_param', 'dependent_bound',
               'pre_assignment', 'projection_result', 'postrun_instantiations',
-              'method_of_generic_class')
+              'method_of_generic_class', 'derived_bound_over_class_variable')
     tiers = {'quick': {'runs': 260, 'wall_s': 70, 'run_timeout_s': 200},
              'thorough': {'runs': 4000, 'wall_s': 1100, 'run_timeout_s': 900}}
 
@@ -96,6 +128,37 @@ class C08(MonitorCheck):
                             nm += 1
                             probes['method_of_generic_class'] = probes.get(
                                 'method_of_generic_class', 0) + 1
+                        except Exception:   # noqa
+                            pass
+                # the same call shape with a derived method type parameter whose bound is a
+                # PARAMETERIZED type over a type variable of the class, F : G<T, a..> inside
+                # C<T, ..> (the generator declares such bounds itself, but rarely): the
+                # assignments of the class instantiation arrive through type_var_map
+                from src.ir import types as tp
+                gen = [d for d in class_decls(run.program) if d.type_parameters]
+                nd = 0
+                for d in gen[:6]:
+                    t0 = d.type_parameters[0]
+                    for g in gen[:6]:
+                        if g.type_parameters[0].bound is not None or nd >= 12:
+                            continue
+                        g0 = g.type_parameters[0]
+                        if any(q.bound is not None and _mentions(q.bound, g0.name)
+                               for q in g.type_parameters[1:]):
+                            continue      # G<T, a..> would not be well-formed for every T
+                        try:
+                            gi, _ = tu.instantiate_type_constructor(g.get_type(), types,
+                                                                    only_regular=True)
+                            bound = g.get_type().new([t0] + list(gi.type_args[1:]))
+                            fp = tp.TypeParameter('F_probe', bound=bound)
+                            _, params_map = tu.instantiate_type_constructor(
+                                d.get_type(), types, only_regular=True)
+                            tu.instantiate_parameterized_function(
+                                [fp], types, only_regular=True, type_var_map=params_map)
+                            npost += 1
+                            nd += 1
+                            probes['derived_bound_over_class_variable'] = probes.get(
+                                'derived_bound_over_class_variable', 0) + 1
                         except Exception:   # noqa
                             pass
                 nf = 0
@@ -165,9 +228,15 @@ class C08(MonitorCheck):
                             obl['undetermined'] += 1
                         elif ok is False:
                             outer = refrel.has_tvars(b)
+                            # a class mentioned in the bound declares a parameter with the
+                            # NAME of a variable the caller pre-assigned (type parameters are
+                            # identified by name, variance and bound): the helper's own
+                            # substitutions capture it
+                            capture = bool(ctor_param_names(p[2], tb) & set(m2) - set(m))
                             add('outside-bound', '%s|%s' % (
                                 kind, 'bound-mentions-outer-type-variable' if outer
-                                else '%s-vs-%s' % (shape(x, 1), shape(b, 1))),
+                                else '%s-vs-%s%s' % (shape(x, 1), shape(b, 1),
+                                                     '|name-capture' if capture else '')),
                                 '%s: argument %d = %s is not within the bound %s' % (
                                     where, i, tstr(a), tstr(b)))
                 # pre-assignment kept
